@@ -10,6 +10,7 @@ import (
 var _ interface {
 	json.Marshaler
 	ordered.Unmarshaler
+	selfInterpolater
 } = (*Cache)(nil)
 
 var (
@@ -67,4 +68,20 @@ func (c *Cache) UnmarshalOrdered(o any) error {
 	}
 
 	return nil
+}
+
+func (c *Cache) interpolate(tf stringTransformer) error {
+	if c == nil {
+		return nil
+	}
+	if err := interpolateString(tf, &c.Name); err != nil {
+		return err
+	}
+	if err := interpolateSlice(tf, c.Paths); err != nil {
+		return err
+	}
+	if err := interpolateString(tf, &c.Size); err != nil {
+		return err
+	}
+	return interpolateMap(tf, c.RemainingFields)
 }
